@@ -567,3 +567,37 @@ impl<R: Read, TSpec> Iterator for TagIterator<R, TSpec>
         next_item.map(|r| r.map(|t| t.0))
     }
 }
+
+/// Verification hooks: state seeding, read-only views and forwarding wrappers around
+/// private methods. Compiled only with `--cfg ebml_iterable_verif`.
+#[cfg(ebml_iterable_verif)]
+impl<R: Read, TSpec> TagIterator<R, TSpec>
+    where TSpec: EbmlSpecification<TSpec> + EbmlTag<TSpec> + Clone
+{
+    pub fn verif_set_buffer(&mut self, buffer: Box<[u8]>, fill: usize, cursor: usize, offset: Option<usize>) {
+        self.buffer = buffer;
+        self.buffered_byte_length = fill;
+        self.internal_buffer_position = cursor;
+        self.buffer_offset = offset;
+    }
+    pub fn verif_set_stack(&mut self, stack: Vec<ProcessingTag<TSpec>>, has_determined_doc_path: bool) {
+        self.tag_stack = stack;
+        self.has_determined_doc_path = has_determined_doc_path;
+    }
+    pub fn verif_buffer(&self) -> &[u8] { &self.buffer }
+    pub fn verif_fill(&self) -> usize { self.buffered_byte_length }
+    pub fn verif_cursor(&self) -> usize { self.internal_buffer_position }
+    pub fn verif_offset(&self) -> Option<usize> { self.buffer_offset }
+    pub fn verif_current_offset(&self) -> usize { self.current_offset() }
+    pub fn verif_stack(&self) -> &[ProcessingTag<TSpec>] { &self.tag_stack }
+    pub fn verif_doc_path_determined(&self) -> bool { self.has_determined_doc_path }
+    pub fn verif_queue_len(&self) -> usize { self.emission_queue.len() }
+    pub fn verif_queue_pop(&mut self) -> Option<Result<(TSpec, usize), TagIteratorError>> { self.emission_queue.pop_front() }
+    pub fn verif_allowed_errors(&self) -> u8 { self.allowed_errors }
+    pub fn verif_max_allowed_tag_size(&self) -> Option<usize> { self.max_allowed_tag_size }
+    pub fn verif_ensure_data_read(&mut self, length: usize) -> Result<bool, TagIteratorError> { self.ensure_data_read(length) }
+    pub fn verif_peek_valid_tag_header(&mut self) -> Result<(u64, Option<TagDataType>, EBMLSize, usize), TagIteratorError> { self.peek_valid_tag_header() }
+    pub fn verif_read_tag(&mut self) -> Result<ProcessingTag<TSpec>, TagIteratorError> { self.read_tag() }
+    pub fn verif_read_next(&mut self) { self.read_next() }
+    pub fn verif_roll_up_children(tag_id: u64, children: Vec<TSpec>) -> TSpec { Self::roll_up_children(tag_id, children) }
+}
